@@ -18,7 +18,9 @@ ASSUMPTIONS = [
     "(Table 1 of arXiv:1607.06292)",
     "a_mu tolerance 1e-9 * sum of |terms| (per-scalar parts and SM subtraction from the library's parameter structs "
     "with individual couplings zeroed), 1e-6 for m_H+ < 80 GeV where the charged-Higgs two-loop functions amplify "
-    "one-ulp differences in the fermion masses by up to 1e8; Yukawa matrices: 1e-12 * max|entry| of the matrix pair "
+    "one-ulp differences in the fermion masses by up to 1e8; plus 4 * (relative coupling difference of a scalar) * |its part| "
+    "(propagation of the separately judged Yukawa differences) and 2e-6 * |charged-Higgs two-loop part| (C02 accuracy of "
+    "FCWu/FCWd); Yukawa matrices: 1e-12 * max|entry| of the matrix pair "
     "(1e-10 for (b), where the general parametrisation subtracts sqrt2 M tan(beta)/v again)",
     "ignored-parameter twins must agree bit-for-bit",
 ]
@@ -39,9 +41,28 @@ def norms(r):
     return {"amu1L": n1, "amu2LF": nf, "amu2LB": nb, "amu2L": nf + nb}
 
 
+def coupling_noise(r1, r2):
+    """relative difference of the Yukawa couplings of each scalar between the twins (largest over the three sectors)"""
+    out = {}
+    for s in ("h", "H", "A", "Hp"):
+        rel = 0.0
+        for f in "udl":
+            y = "y%s%s" % (f, s)
+            v1 = [r1["%s.%d.%d.%s" % (y, i, j, c)] for i in range(3) for j in range(3) for c in ("re", "im")]
+            v2 = [r2["%s.%d.%d.%s" % (y, i, j, c)] for i in range(3) for j in range(3) for c in ("re", "im")]
+            if any(v != v for v in v1 + v2):
+                continue
+            sc = max(max(abs(v) for v in v1), max(abs(v) for v in v2))
+            if sc > 0:
+                rel = max(rel, min(1.0, max(abs(a - b) for a, b in zip(v1, v2)) / sc))
+        out[s] = rel
+    return out
+
+
 def compare(r1, r2, keys, ytol, exact=False, yfloor=None):
     bad = []
     n1, n2 = norms(r1), norms(r2)
+    noise = None if exact else coupling_noise(r1, r2)
     for k in keys:
         a, b = r1.get(k), r2.get(k)
         if a is None or b is None:
@@ -62,6 +83,16 @@ def compare(r1, r2, keys, ytol, exact=False, yfloor=None):
         # Higgs (m_t^2/m_H+^2 >> 1), so the tolerance is loosened there
         rel = 1e-9 if min(r1["MHm.1"], r2["MHm.1"]) >= 80.0 else 1e-6
         tol = rel * max(n1[k], n2[k], abs(a), abs(b))
+        # first-order propagation of the (separately judged) coupling differences: a scalar whose couplings are
+        # rounding residues (|y| ~ 1e-12 next to cos(beta-alpha) = 0) contributes pure noise, which a massless or
+        # very light scalar can lift above 1e-9 of the sum
+        pk = {"amu1L": "parts.1L.", "amu2LF": "parts.2LF.", "amu2L": "parts.2LF."}.get(k)
+        if pk:
+            tol += 4.0 * sum(noise[s] * max(abs(r1[pk + s]), abs(r2[pk + s])) for s in noise)
+        # the charged Barr-Zee functions are only required (C02) to be accurate to 1e-6; the twins evaluate them at
+        # arguments that differ by ulps, so the charged part carries up to that much uncorrelated noise
+        if k in ("amu2LF", "amu2L"):
+            tol += 2e-6 * max(abs(r1["parts.2LF.Hp"]), abs(r2["parts.2LF.Hp"]))
         if abs(a - b) > tol:
             bad.append((k, a, b, abs(a - b) / max(n1[k], n2[k], 1e-300)))
     for y in YUK:
